@@ -29,10 +29,11 @@ FLAG_CLASS = {
     "attr_after_empty_text": "K-C01-3",
     "ns_in_rtf": "K-C01-4",
     "global_rtf_built_in_text_only_context": "K-C01-5",
-    "ns_attr_copied_alone": "K-C01-6",
+    "ns_attr_copied_alone": "C14/KN9",   # recorded under property C14, not re-filed here
     "ns_attr_replaced": "C14/K17",      # recorded under property C14, not re-filed here
 }
-FOREIGN = {"C14/K17": "K17 (property C14): two attributes with the same expanded name in a namespace are not recognised as duplicates (replacement is decided on the qualified name string)"}
+FOREIGN = {"C14/KN9": "KN9 (property C14): a copied attribute node in a namespace keeps its prefix and nothing declares it on the new parent",
+           "C14/K17": "K17 (property C14): two attributes with the same expanded name in a namespace are not recognised as duplicates (replacement is decided on the qualified name string)"}
 
 
 def corpus_dir():
